@@ -78,6 +78,12 @@ func (a *advSC) writeData(b []byte) {
 
 // handshake with the node as an ordinary (authenticated) peer
 func advHandshake(c net.Conn, key *ecdsa.PrivateKey, seed int64) (*advSC, error) {
+	return advHandshakeWith(c, key, seed, nil)
+}
+
+// advHandshakeWith: custom != nil: after the key exchange the adversary sends these plaintext bytes (sealed) where
+// its auth message belongs, and does not wait for the node's.
+func advHandshakeWith(c net.Conn, key *ecdsa.PrivateKey, seed int64, custom []byte) (*advSC, error) {
 	var priv, pub [32]byte
 	h := sha256.Sum256([]byte(fmt.Sprintf("verif-adv-eph-%d", seed)))
 	copy(priv[:], h[:])
@@ -127,6 +133,11 @@ func advHandshake(c net.Conn, key *ecdsa.PrivateKey, seed int64) (*advSC, error)
 	} else {
 		copy(a.send[:], res[0:32])
 		copy(a.recv[:], res[32:64])
+	}
+	if custom != nil {
+		go io.Copy(io.Discard, c)
+		a.writeData(custom)
+		return a, nil
 	}
 	challenge := t.ExtractBytes([]byte("SECRET_CONNECTION_MAC"), 32)
 	sig, err := crypto.Sign(challenge, key)
